@@ -65,7 +65,10 @@ func tableRemove(L *LState) int {
 
 func tableConcat(L *LState) int {
 	tbl := L.CheckTable(1)
-	sep := LString(L.OptString(2, ""))
+	sep := emptyLString
+	if L.Get(2) != LNil {
+		sep = LString(L.CheckString(2)) // a number is a valid separator
+	}
 	i := L.OptInt(3, 1)
 	j := L.OptInt(4, tbl.Len())
 	if i > j {
